@@ -206,11 +206,15 @@ impl Sandbox {
         if matches!(out.status.signal(), Some(libc::SIGXCPU) | Some(libc::SIGKILL)) && CONFIRMED_HANGS.load(std::sync::atomic::Ordering::Relaxed) < 3 {
             static CONFIRM: std::sync::Mutex<()> = std::sync::Mutex::new(());
             let _g = CONFIRM.lock().unwrap_or_else(|e| e.into_inner());
+            // (others may have been confirmed while this worker waited for the lock)
+            let still_needed = CONFIRMED_HANGS.load(std::sync::atomic::Ordering::Relaxed) < 3;
             // remove partial outputs of the killed run (files that were not there before)
             let mut present = vec![];
             let mut dirs = vec![];
-            walk_files(&self.dir, &self.dir, &mut present, &mut dirs);
-            let mut restorable = true;
+            if still_needed {
+                walk_files(&self.dir, &self.dir, &mut present, &mut dirs);
+            }
+            let mut restorable = still_needed;
             for rel in present {
                 match self.state.get(&rel) {
                     None => {
